@@ -587,9 +587,12 @@ where
 
     fn next(&mut self) -> Option<Self::Item> {
         let step @ (_, v) = self.queue.pop_front()?;
+        let order = self.visited.len();
         let visited_ptr = self.visited.as_mut_ptr();
 
         for u in self.digraph.out_neighbors(v) {
+            assert!(u < order, "u = {u} isn't in the digraph");
+
             let visited_u = unsafe { visited_ptr.add(u) };
 
             unsafe {
